@@ -2,7 +2,7 @@
 
 /// what `JoinOutput::new` establishes about the fields the assembly reads
 pub open spec fn jo_wf(jo: JoinOutput) -> bool {
-    jo.branch_count == jo.depths@.len() && jo.branch_count == jo.branch_pats@.len() && jo.branch_count >= 1 && jo.max_step_count >= 1
+    jo.branch_count == jo.depths@.len() && jo.branch_count == jo.branch_pats@.len() && jo.branch_count >= 1 && jo.max_step_count >= 1 && chains_wf(jo)
 }
 
 /// C04 / C12: the final name of branch i is the user's `let` name if there is one, else the generated `__r{i}`; the
